@@ -45,9 +45,9 @@ type plan struct {
 }
 
 func run(c *vf.Ctx) {
-	plans := []plan{{"L", "limits", 0}, {"T", "time-grants", 0}, {"F", "deposits-fuzz", c.N(90, 400)}}
-	for i := 0; i < c.N(0, 5); i++ {
-		plans = append(plans, plan{fmt.Sprintf("Z%d", i), "fuzz", 450})
+	plans := []plan{{"L", "limits", 0}, {"T", "time-grants", 0}, {"F", "deposits-fuzz", c.N(150, 400)}}
+	for i := 0; i < c.N(1, 6); i++ {
+		plans = append(plans, plan{fmt.Sprintf("Z%d", i), "fuzz", c.N(250, 500)})
 	}
 	c.Parallel(len(plans), 6, 1600, func(i int, rng *rand.Rand) { runChain(c, plans[i], rng) })
 	c.Assume("what left a master in a session-signed tx is measured as max(0, balance before − balance after) per denomination with that tx alone in its block: coins returned to the master inside the same tx (deposit releases, realm pay-backs) net against its outflow, so the ledger is a lower bound of the gross outflow")
